@@ -177,10 +177,10 @@ class Fn:
 
     def cond1(self):
         a = self.nat_shift(); o = self.eat()
-        if o not in (">=", "<", ">"):
+        if o not in (">=", "<", ">", "<="):
             raise TranslateError("%s: comparison %r not in subset" % (self.name, o))
         b = self.nat_shift()
-        return "decide (%s %s %s)" % (a, {">=": "≥", "<": "<", ">": ">"}[o], b)
+        return "decide (%s %s %s)" % (a, {">=": "≥", "<": "<", ">": ">", "<=": "≤"}[o], b)
 
     # ------------- statements: each returns a Lean term of type V → Option V
     def block_or_stmt(self):
